@@ -1,5 +1,6 @@
 import GoDcp.Proofs.LifeLemmas
 import GoDcp.Props.C11Run
+import GoDcp.Props.C12Run
 /-!
 # C13 — graceful shutdown is clean from every lifecycle state
 (run level; stream-level part of `dcp.close`: final save in auto mode, then `stream.Close`)
@@ -9,6 +10,11 @@ needed only to exclude a `Rebalance` timer that is *already due* when the shutdo
 timer fires into the closed stream and fail-stops (`reb_timer_after_shutdown_failstops`), the
 timer-driven sibling of F4. After the shutdown the model drops every op except shutdown / query
 (`stopCh` is closed), time does not advance, so a timer that is not yet due never fires.
+
+The count after `Close()` (section "the count after `Close()`"): `doClose` only subtracts the offsets entries whose
+vBucket is not in `endedVbs` (a finally ended stream answers `CloseStream` with "no such stream", no `End`), so under the
+server hypothesis `EndsOnce` of `Props/C12Run.lean` the count reaches exactly 0 whatever had ended before
+(`close_after_ends_reaches_zero`, `shutdown_after_ends`).
 -/
 namespace GoDcp.Life
 open GoDcp
@@ -339,6 +345,107 @@ theorem shutdown_store {s : LSt} (c : Bool) (hd : s.dead = false) (hi : Inv s) (
     (hs : Settled s) : (step s (.shutdown c)).1.store = (finalSave s).1.store := by
   rw [shutdown_from_A_eq c hd hi ho hs]
   simp
+
+/-! ## the count after `Close()` -/
+
+/-- **`close_after_ends_reaches_zero`.** In phase A under the exact count (server hypothesis `EndsOnce`), `Close`
+    brings the active count to exactly 0 WHATEVER subset of the assigned vBuckets had finally ended before: only
+    the streams the server still has answer `CloseStream` with an `End`. So the end-event token is produced by the
+    `End` of the LAST live stream (`finishedWithEnd`), `Close` does not send the close token, and `stop` is
+    emitted exactly once, inside `BSP … ASP` – unless `stopCh` was already closed by the last final end. -/
+theorem close_after_ends_reaches_zero {s : LSt} (c : Bool) (hA : PhA s) (hx : Exact s) (hd : s.dead = false) :
+    doClose s c = some (closeCore s c) ∧
+    (closeCore s c).1.active = 0 ∧ (closeCore s c).1.finishedWithEnd = true ∧
+    (closeCore s c).1.finishedWithClose = false ∧ (closeCore s c).1.stopClosed = true ∧
+    (closeCore s c).2 = [.cb .BSP] ++ s.pos.map (fun (vb, _) => LObs.closereq vb) ++
+      (if s.stopClosed then [] else [.stop]) ++ [.cb .ASP] := by
+  have h0 : s.active - ((live s).length : Int) = 0 := by rw [hA.exact_live hx hd]; omega
+  refine ⟨by rw [doClose_eq, hA.obsNil]; rfl, closeCore_active_zero c hA hx hd, ?_, ?_,
+    closeCore_stop_streaming s c hA.balancing hA.fwc hA.fwe, ?_⟩
+  · simp only [closeCore, waitFires, h0, hA.fwc, hA.balancing]
+    cases s.stopClosed <;> simp
+  · simp only [closeCore, waitFires, h0, hA.fwc, hA.balancing]
+    cases s.stopClosed <;> simp
+  · simp only [closeCore, waitFires, h0, hA.fwc, hA.balancing]
+    cases s.stopClosed <;> simp
+
+/-- number of times `stopCh` is closed in an output (the model emits `stop` only when it closes the channel) -/
+def stopCount (o : List LObs) : Nat := (o.filter (· == LObs.stop)).length
+
+theorem stopCount_append (a b : List LObs) : stopCount (a ++ b) = stopCount a + stopCount b := by
+  simp [stopCount, List.filter_append]
+
+theorem stopCount_writtens (w : List (Nat × Nat)) : stopCount (w.map fun (vb, q) => LObs.written vb q) = 0 := by
+  induction w with
+  | nil => rfl
+  | cons p r ih =>
+    have : stopCount ((p :: r).map fun (vb, q) => LObs.written vb q) =
+        stopCount (r.map fun (vb, q) => LObs.written vb q) := by
+      simp [stopCount]
+    rw [this, ih]
+
+theorem stopCount_closereqs (m : List (Nat × Nat)) : stopCount (m.map fun (vb, _) => LObs.closereq vb) = 0 := by
+  induction m with
+  | nil => rfl
+  | cons p r ih =>
+    have : stopCount ((p :: r).map fun (vb, _) => LObs.closereq vb) =
+        stopCount (r.map fun (vb, _) => LObs.closereq vb) := by
+      simp [stopCount]
+    rw [this, ih]
+
+/-- **the shutdown step after any number of final ends** (settled phase-A state, exact count): the count is 0 after
+    `Close()`, the output is `[written …] BSP closereq… [stop] ASP`, and `stopCh` is closed by this step exactly once –
+    not at all iff the last final end had closed it before -/
+theorem shutdown_after_ends {s : LSt} (c : Bool) (hd : s.dead = false) (hi : Inv s) (ho : s.isOpen = true)
+    (hs : Settled s) (hx : Exact s) :
+    (step s (.shutdown c)).1.active = 0 ∧ Exact (step s (.shutdown c)).1 ∧
+    (step s (.shutdown c)).2 = (finalSave s).2 ++ ([.cb .BSP] ++ s.pos.map (fun (vb, _) => LObs.closereq vb) ++
+      (if s.stopClosed then [] else [.stop]) ++ [.cb .ASP]) ∧
+    stopCount (step s (.shutdown c)).2 = (if s.stopClosed then 0 else 1) := by
+  have g := finalSave_good hi hd
+  have hd1 : (finalSave s).1.dead = false := (finalSave_dead s).trans hd
+  have hA1 : PhA (finalSave s).1 := g.inv.phA hd1 ((finalSave_isOpen s).trans ho)
+  have e := finalSave_fields s
+  have hx1 : Exact (finalSave s).1 :=
+    hx.congr (s' := (finalSave s).1) ⟨e.dead, e.isOpen, e.everOpened, e.active, e.lo, e.hi, e.endedVbs⟩
+  have hst : (finalSave s).1.stopClosed = s.stopClosed := e.stopClosed
+  obtain ⟨_, h0, _, _, _, hout⟩ := close_after_ends_reaches_zero c hA1 hx1 hd1
+  rw [finalSave_pos, hst] at hout
+  obtain ⟨w, hw⟩ := finalSave_out s
+  rw [shutdown_from_A_eq c hd hi ho hs]
+  refine ⟨h0, Exact.zero (by simp) h0, by rw [hout], ?_⟩
+  show stopCount ((finalSave s).2 ++ (closeCore (finalSave s).1 c).2) = _
+  rw [hout, hw, stopCount_append, stopCount_append, stopCount_append, stopCount_append, stopCount_writtens,
+    stopCount_closereqs]
+  cases s.stopClosed <;> rfl
+
+/-- the same at the end of a run: `Open`, then any op list under the server hypothesis `EndsOnce` – whatever final
+    ends happened – then `Close()` from a settled open state -/
+theorem shutdown_after_ends_run {s0 : LSt} (c : Bool) (hd : s0.dead = false) (ok : TimersOk s0) (hpre : PhPre s0)
+    (ops : List LOp) (hno : NoOpen ops) (hsrv : EndsOnce s0 (LOp.open :: ops)) :
+    let s := run s0 (LOp.open :: ops)
+    s.dead = false → s.isOpen = true → Settled s →
+      (step s (.shutdown c)).1.active = 0 ∧ stopCount (step s (.shutdown c)).2 = (if s.stopClosed then 0 else 1) := by
+  intro s hds hos hs
+  have hx : Exact s := exact_from_open hd ok hpre ops hno hsrv
+  have hi : Inv s := (run_good (.pre hd ok hpre) (OpsOk_open hpre.everOpened hno)).inv
+  obtain ⟨h1, _, _, h4⟩ := shutdown_after_ends c hds hi hos hs hx
+  exact ⟨h1, h4⟩
+
+/-- non-vacuity: one of three streams has finally ended; the shutdown closes the two live ones, the count reaches 0
+    (it was −1 when `Close` subtracted every offsets entry) and `stop` is emitted once -/
+example :
+    let s0 : LSt := { memLo := 0, memHi := 2 }
+    let s := run s0 [.open, .endEv 1 .final]
+    s.active = 2 ∧ (step s (.shutdown false)).1.active = 0 ∧
+    (step s (.shutdown false)).2 = [.cb .BSP, .closereq 0, .closereq 1, .closereq 2, .stop, .cb .ASP] := by decide
+
+/-- all streams had ended (the last end closed `stopCh`): the shutdown does not close it a second time -/
+example :
+    let s0 : LSt := { memLo := 0, memHi := 1 }
+    let s := run s0 [.open, .endEv 1 .final, .endEv 0 .clean]
+    s.stopClosed = true ∧ (step s (.shutdown false)).1.active = 0 ∧
+    (step s (.shutdown false)).2 = [.cb .BSP, .closereq 0, .closereq 1, .cb .ASP] := by decide
 
 /-! ## non-vacuity -/
 
